@@ -12,7 +12,7 @@
    404/405).  The specification side of the lookup judges is [expect] over the
    list of declarations the IMPLEMENTATION accepted, so it does not depend on
    the model's own registration verdicts. *)
-From DS Require Import Base Versions Router RouterSpec Pct Utf8 PathNorm Register Route Pipeline.
+From DS Require Import Base Versions RankEmbed Router RouterSpec Pct Utf8 PathNorm Register Route Pipeline.
 From DS Require Semver.
 
 Definition V_AGREE : N := 0.
@@ -287,14 +287,13 @@ Definition judge_detail_c02 (c : rcase) : list N :=
 
 (* ---- the request pipeline (Pipeline.v) ----
    The chain is a strictly increasing list of semver versions; ranges carry
-   chain indices.  The model is instantiated at V := N through an order
-   embedding of all versions into N relative to the chain: chain[i] |-> 2i+1,
-   a version strictly between two chain elements |-> the even number between
-   their images (dropshot inspects versions only through comparisons with
-   range bounds and the policy's maximum, all of them chain elements). *)
-Definition vrank (chain : list Semver.version) (v : Semver.version) : N :=
-  2 * N.of_nat (length (filter (fun c => match Semver.cmp c v with Lt => true | _ => false end) chain))
-  + (if existsb (fun c => match Semver.cmp c v with Eq => true | _ => false end) chain then 1 else 0).
+   chain indices.  The model is instantiated at V := N through the ranking of
+   all versions against the chain (RankEmbed.rank: chain elements get odd
+   ranks, a version strictly between two of them the even number in between):
+   an order embedding relative to the chain, under which the whole pipeline
+   commutes (PipelineEmbed.handle_by_rank) — every range bound and the
+   policy's maximum are chain elements. *)
+Definition vrank (chain : list Semver.version) (v : Semver.version) : N := rank Semver.version Semver.cmp chain v.
 Fixpoint parse_chain (chain : list str) : option (list Semver.version) :=
   match chain with
   | [] => Some []
@@ -308,10 +307,17 @@ Fixpoint strictly_inc (l : list Semver.version) : bool :=
   | a :: ((b :: _) as t) => match Semver.cmp a b with Lt => strictly_inc t | _ => false end
   | _ => true
   end.
-Definition lift_idx (i : N) : N := 2 * i + 1.
-Definition lift_decl (d : decl N) : decl N :=
-  (fst d, mkEp (e_id (snd d)) (e_method (snd d)) (map_range lift_idx (e_versions (snd d)))
+Definition lift_idx (vs : list Semver.version) (i : N) : N := vrank vs (nth (N.to_nat i) vs Semver.bot).
+Definition lift_decl (vs : list Semver.version) (d : decl N) : decl N :=
+  (fst d, mkEp (e_id (snd d)) (e_method (snd d)) (map_range (lift_idx vs) (e_versions (snd d)))
                (e_ctype (snd d)) (e_maxbytes (snd d)) (e_visible (snd d))).
+Definition idx_ok (n : nat) (r : vrange N) : bool :=
+  match r with
+  | VAll => true
+  | VFrom a => N.to_nat a <? n
+  | VFromUntil a b => (N.to_nat a <? n) && (N.to_nat b <? n)
+  | VUntil b => N.to_nat b <? n
+  end%nat.
 
 Definition judge_pipe_req (which : N) (pol : policy N) (parse : str -> option N)
            (acc : list (decl N)) (r : option (node N)) (q : str * str * hdr) (o : obs) : N :=
@@ -360,9 +366,12 @@ Definition judge_pipe (which : N) (chain : list str) (eps : list (str * ep)) (co
            (pmax : option N) (started : bool) (reqs : list (str * str * hdr)) (os : list obs) : list N :=
   match parse_chain chain, accepted_impl eps codes with
   | Some vs, Some acc0 =>
-      if negb (strictly_inc vs) then [V_MALFORMED] else
-      let acc := map lift_decl acc0 in
-      let pol := match pmax with None => PUnversioned | Some i => PHeader (lift_idx i) end in
+      if negb (strictly_inc vs
+               && forallb (fun d : decl N => idx_ok (length vs) (e_versions (snd d))) acc0
+               && match pmax with Some i => (N.to_nat i <? length vs)%nat | None => true end)
+      then [V_MALFORMED] else
+      let acc := map (lift_decl vs) acc0 in
+      let pol := match pmax with None => PUnversioned | Some i => PHeader (lift_idx vs i) end in
       let parse := fun s => option_map (vrank vs) (Semver.parse s) in
       (* server start: an unversioned policy over a version-restricted table is refused *)
       if negb (bool_eqb started (starts N pol acc)) then [V_VIOLATION]
